@@ -36,7 +36,12 @@ class SequenceAdapter(Adapter):
 
     @classmethod
     def items(cls, value, node):
-        if node is None or not isinstance(node, cls.node_type):
+        if (
+            node is None
+            or not isinstance(node, cls.node_type)
+            or any(isinstance(e, ast.Starred) for e in node.elts)
+        ):
+            # star-expressions: the elements can not be mapped to nodes
             return [Item(value=v, node=None) for v in value]
 
         assert len(value) == len(node.elts)
